@@ -10,6 +10,7 @@
 //	                     sleep:<duration>          sleep on every hit
 //	                     sleepn:<k>:<duration>     sleep on the k-th hit only
 //	                     await:<other>:<n>         block until point <other> was hit >= n times (10s safety timeout)
+//	                     awaitnext:<other>:<max>   the k-th hit blocks until <other> was hit >= min(k+1, max) times (10s safety timeout)
 //	                     kill:<k>                  SIGKILL the process on the k-th hit
 //	                     yield                     runtime.Gosched()
 //
@@ -70,6 +71,12 @@ func parseAction(s string) (action, bool) {
 		if len(p) == 3 {
 			if n, err := strconv.Atoi(p[2]); err == nil {
 				return action{kind: "await", other: p[1], n: n}, true
+			}
+		}
+	case "awaitnext":
+		if len(p) == 3 {
+			if n, err := strconv.Atoi(p[2]); err == nil {
+				return action{kind: "awaitnext", other: p[1], n: n}, true
 			}
 		}
 	case "kill":
@@ -161,11 +168,16 @@ func Point(name string) {
 		return
 	}
 	switch a.kind {
-	case "await":
+	case "await", "awaitnext":
+		if a.kind == "awaitnext" {
+			if hit+1 < a.n {
+				a.n = hit + 1
+			}
+		}
 		deadline := time.Now().Add(10 * time.Second)
 		timer := time.AfterFunc(10*time.Second, func() { mu.Lock(); cond.Broadcast(); mu.Unlock() })
 		for counters[a.other] < a.n && time.Now().Before(deadline) {
-			if cur, still := sched[name]; !still || cur != a {
+			if cur, still := sched[name]; !still || cur.kind != a.kind || cur.other != a.other {
 				break
 			}
 			cond.Wait()
